@@ -50,12 +50,19 @@ def lp_spec(rng, maxlen=40, zero_prob=0.12, klass=None):
 def phases(rng, n, pattern=None):
     """n phases (python floats)"""
     if pattern is None:
-        pattern = rng.choice(["generic", "generic", "equal", "alternating", "extreme", "ends", "small", "near-special"])
+        pattern = rng.choice(["generic", "generic", "equal", "alternating", "extreme", "ends", "small", "near-special", "quarter-turns"])
     if pattern == "near-special":
         # close to, but not at, the quarter and half turns: within 1e-10 .. 1e-4 (arbitrary real phases include these)
         v = rng.choice([0.0, math.pi / 2, -math.pi / 2, math.pi, -math.pi, 2 * math.pi], size=n) + rng.choice([-1.0, 1.0], size=n) * 10.0 ** rng.uniform(-10, -4, size=n)
         if n > 2 and rng.random() < 0.5:
             keep = rng.random(n) < 0.5
+            v = np.where(keep, v, rng.uniform(-math.pi, math.pi, size=n))
+    elif pattern == "quarter-turns":
+        # whole multiples of a quarter turn well beyond the principal range (k pi/2, |k| <= 13, as binary64 rounds them):
+        # sine and cosine are +-1 / ~1e-16 there, and which is which depends on k mod 4, not on the sign of the angle
+        v = np.array([float(int(k) * math.pi / 2) for k in rng.integers(-13, 14, size=n)])
+        if n > 2 and rng.random() < 0.5:
+            keep = rng.random(n) < 0.6
             v = np.where(keep, v, rng.uniform(-math.pi, math.pi, size=n))
     elif pattern == "huge":
         # "arbitrary real phases": far from the origin (1e2 .. 1e15), where e^{i phi} depends on every bit of phi
